@@ -275,6 +275,7 @@ func PendDec(p []int) *z80.Interrupt {
 
 // InitSpec is everything an init event says.
 type InitSpec struct {
+	Sid     int // scenario id (passed through to the init event for replays)
 	R       [27]int
 	Halt    bool
 	Dev     DevDesc
@@ -362,8 +363,8 @@ func jU16(xs []uint16) string {
 // EmitInit writes an init event.
 func EmitInit(w *bufio.Writer, is *InitSpec) {
 	r := is.R
-	fmt.Fprintf(w, `{"e":"i","r":%s,"h":%d,"dev":["%s",%d,%d,%d],"io":["%s",%d,%d],"cells":%s,"iocells":%s,"pend":%s}`+"\n",
-		jInts(r[:]), b2i(is.Halt), is.Dev.Kind, is.Dev.Seed, is.Dev.Val, is.Dev.Len,
+	fmt.Fprintf(w, `{"e":"i","sid":%d,"r":%s,"h":%d,"dev":["%s",%d,%d,%d],"io":["%s",%d,%d],"cells":%s,"iocells":%s,"pend":%s}`+"\n",
+		is.Sid, jInts(r[:]), b2i(is.Halt), is.Dev.Kind, is.Dev.Seed, is.Dev.Val, is.Dev.Len,
 		is.IO.Kind, is.IO.Seed, is.IO.Len, jPairs(is.Cells), jPairs(is.IOCells), jInts(is.Pend))
 }
 
